@@ -838,12 +838,80 @@ fn steer(c: &mut Case, k: Known, (t1, t2, t3): (u8, u8, u8)) {
 
 fn run(ctx: &Ctx) {
     let k = known(ctx);
-    ctx.run_sub("threads", ctx.tier.pick(1_600, 40_000), || strategy(k), |c: &Case| check_with(c, k));
+    ctx.run_sub("threads", ctx.tier.pick(4_000, 60_000), || strategy(k), |c: &Case| check_with(c, k));
     if ctx.label_count("inconclusive-timeout") > 0 {
         ctx.note(format!("inconclusive-timeout: {} executions did not return within the watchdog but did not reproduce twice; not counted as violations", ctx.label_count("inconclusive-timeout")));
     }
+    shuttle_part(ctx);
     if ctx.label_count("harness-io-error") > 0 {
         ctx.note(format!("{} cases skipped because the temp directory could not be prepared", ctx.label_count("harness-io-error")));
+    }
+}
+
+/// PART 2 — generated schedules. `harness-shuttle` rebuilds the library's batch sources from the working tree with
+/// std::{thread,sync} replaced by shuttle:: (no change in the library) and runs random, PCT and bounded depth-first
+/// schedules of small job lists against the same invariants. The binary is built by `/verif/check` for C22.
+fn shuttle_bin(ctx: &Ctx) -> PathBuf {
+    ctx.verif_dir.join(".build-shuttle").join("debug").join("vp-shuttle")
+}
+
+fn run_shuttle(ctx: &Ctx, tier: &str, seed: u64) -> Result<Value, String> {
+    let bin = shuttle_bin(ctx);
+    if !bin.exists() {
+        return Err(format!("{} not built", bin.display()));
+    }
+    let out = std::process::Command::new(&bin)
+        .arg(tier)
+        .env("VP_SHUTTLE_JSON", "1")
+        .env("VERIF_SEED", seed.to_string())
+        .env("VERIF_DIR", &ctx.verif_dir)
+        .output()
+        .map_err(|e| format!("cannot run {}: {e}", bin.display()))?;
+    let text = String::from_utf8_lossy(&out.stdout);
+    let line = text.lines().rev().find_map(|l| l.strip_prefix("JSON ")).ok_or_else(|| format!("no result line from vp-shuttle (status {:?})", out.status))?;
+    serde_json::from_str(line).map_err(|e| format!("bad result line from vp-shuttle: {e}"))
+}
+
+fn shuttle_outcomes(res: &Value) -> Vec<Outcome> {
+    res["found"]
+        .as_array()
+        .map(|a| {
+            a.iter()
+                .map(|f| {
+                    let sig = f["sig"].as_str().unwrap_or("C22/shuttle|unknown");
+                    let (clause, class) = sig.split_once('|').unwrap_or((sig, ""));
+                    let mut o = Outcome::new();
+                    o.nontrivial(true);
+                    o.fail(clause, class, format!("{} schedules: {}", f["n"], f["detail"].as_str().unwrap_or("")));
+                    o
+                })
+                .collect()
+        })
+        .unwrap_or_default()
+}
+
+fn shuttle_part(ctx: &Ctx) {
+    let tier = ctx.tier.name();
+    match run_shuttle(ctx, tier, ctx.seed) {
+        Err(e) => {
+            ctx.note(format!("schedule part (shuttle) could not run: {e}; only the real-thread part decided this run"));
+            ctx.extra("shuttle", serde_json::json!({"ran": false, "why": e}));
+        }
+        Ok(res) => {
+            let n = res["random_pct"].as_u64().unwrap_or(0) + res["dfs"].as_u64().unwrap_or(0);
+            // distinct is counted conservatively as the number of generated job lists: random and PCT schedules of one
+            // job list may repeat, and the harness does not deduplicate schedules
+            let distinct = res["cases"].as_u64().unwrap_or(0) + res["dfs_cases"].as_u64().unwrap_or(0);
+            ctx.bulk("shuttle-schedules", n, distinct, serde_json::json!({"cases": res["cases"], "random_pct_schedules": res["random_pct"], "dfs_schedules": res["dfs"], "dfs_cases": res["dfs_cases"], "dfs_explored_completely": res["dfs_complete"]}));
+            ctx.extra("shuttle", serde_json::json!({"ran": true, "result": res}));
+            for (i, o) in shuttle_outcomes(&res).into_iter().enumerate() {
+                let case = serde_json::json!({"seed": ctx.seed, "tier": tier, "signature": o.fails[0].signature()});
+                let unknown = ctx.record("shuttle-schedules", crate::engine::hash64(format!("shuttle{i}{}", o.fails[0].signature()).as_bytes()), &o, || case.clone());
+                if let Some(f) = unknown.first() {
+                    ctx.violation("shuttle-schedules", f, case, &o.fails);
+                }
+            }
+        }
     }
 }
 
@@ -851,6 +919,19 @@ fn replay(ctx: &Ctx, sub: &str, case: &Value) -> Result<Outcome, String> {
     let k = known(ctx);
     match sub.trim_start_matches("replay:") {
         "threads" => ctx.replay_case::<Case, _>(case, |c: &Case| check_with(c, k)),
+        "shuttle-schedules" => {
+            // a schedule finding is reproduced by re-running the campaign it came from (same seed and tier)
+            let res = run_shuttle(ctx, case["tier"].as_str().unwrap_or("quick"), case["seed"].as_u64().unwrap_or(0))?;
+            let want = case["signature"].as_str().unwrap_or("");
+            let mut out = Outcome::new();
+            out.nontrivial(true);
+            for o in shuttle_outcomes(&res) {
+                if want.is_empty() || o.fails[0].signature() == want {
+                    out.fails.extend(o.fails);
+                }
+            }
+            Ok(out)
+        }
         s => Err(format!("unknown sub-check {s}")),
     }
 }
